@@ -103,6 +103,16 @@ def safe_run(mod, case, hang_s=10.0):
     old_out = sys.stdout
     sys.stdout = _NULL
     old_handler = signal.signal(signal.SIGALRM, _alarm)
+    # runs that have to precede this one in the same interpreter (code under test that keeps state between
+    # independent simulations): executed first, their verdicts are ignored
+    for pre in case.get('pre_runs', []) or []:
+        signal.setitimer(signal.ITIMER_REAL, hang_s)
+        try:
+            mod.run(pre)
+        except BaseException:
+            pass
+        finally:
+            signal.setitimer(signal.ITIMER_REAL, 0)
     signal.setitimer(signal.ITIMER_REAL, hang_s)
     try:
         res = mod.run(case)
@@ -467,17 +477,9 @@ def run_check(pid, tier, base_seed, runs=None, budget=None, jobs=None):
         else:
             print('note: known finding %s no longer reproduces (stale entry?)' % kf['key'])
 
-    # determinism self-check on a sample of this batch's own seeds
-    det_ok, det_msg, det_n = determinism_check(mod, base_seed, tier, cfg.get('det_sample', 24),
-                                               cfg.get('det_children', 1))
     harness_errors = []
     viols = []
-    if not det_ok:
-        if getattr(mod, 'NONDETERMINISM_IS_VIOLATION', False):
-            viols.append((-1, [('%s.1' % pid, 'trace not reproducible: ' + det_msg)]))
-        else:
-            harness_errors.append('nondeterminism: ' + det_msg)
-
+    deferred_nondet = None
     agg = {'n': 0, 'digests': set(), 'stats': collections.Counter(), 'simtime': 0.0, 'steps': 0,
            'samples': [], 'interleavings': set(), 'trivial': 0}
     ctx = multiprocessing.get_context('fork')
@@ -523,6 +525,19 @@ def run_check(pid, tier, base_seed, runs=None, budget=None, jobs=None):
                 agg['samples'] += r['samples']
                 viols += r['viol']
             submit()
+
+    # (run after the batch so that state the code under test may keep between runs cannot reach the workers)
+    # determinism self-check on a sample of this batch's own seeds
+    det_ok, det_msg, det_n = determinism_check(mod, base_seed, tier, cfg.get('det_sample', 24),
+                                               cfg.get('det_children', 1))
+    if not det_ok:
+        if getattr(mod, 'NONDETERMINISM_IS_VIOLATION', False):
+            viols.append((-1, [('%s.1' % pid, 'trace not reproducible: ' + det_msg)]))
+        else:
+            # decided after the batch: if an oracle fails as well, that violation (with the runs that must precede it)
+            # is what gets reported; irreproducibility alone is not this property's business
+            deferred_nondet = 'nondeterminism: ' + det_msg
+
 
     viols.sort(key=lambda x: x[0])
     # one representative (lowest index) per clause
@@ -575,17 +590,38 @@ def run_check(pid, tier, base_seed, runs=None, budget=None, jobs=None):
         # the replay file must reproduce the violation in a fresh process
         p = subprocess.run([os.path.join(VERIF, "check"), pid, '--replay', path],
                            capture_output=True, text=True, timeout=300, cwd=VERIF)
-        if (p.returncode != 1 or ('violated %s:' % cl) not in p.stdout) and \
-                getattr(mod, 'NONDETERMINISM_IS_VIOLATION', False):
-            # for the reproducibility property a verdict that does not recur in a fresh process IS the violation
-            reported.append(('%s.1' % pid, 'a violation of %s seen in the batch (index %d) does not recur when the '
-                             'same explicit case is executed in a fresh interpreter: execution is not reproducible'
-                             % (cl, i), path))
-            continue
         if p.returncode != 1 or ('violated %s:' % cl) not in p.stdout:
-            harness_errors.append('violation of %s at index %d does not replay from %s (exit %d)'
-                                  % (cl, i, path, p.returncode))
-            continue
+            # Not reproducible alone. If the same case needs the runs that preceded it in its worker process, the code
+            # under test keeps state between independent simulations: replay it together with those runs.
+            ok_pre = False
+            lo = max(0, (i // chunk - 2) * chunk)
+            allpre = [gen_case(mod, base_seed, tier, j) for j in range(lo, i)]
+            n_pre = 1
+            while allpre and not ok_pre:
+                n_pre = min(n_pre, len(allpre))
+                cand = dict(case)
+                cand['pre_runs'] = allpre[-n_pre:]
+                # judged in fresh interpreters only: this process has itself executed many cases by now
+                path = write_replay(mod, cand, vs, cand, 0)
+                p = subprocess.run([os.path.join(VERIF, "check"), pid, '--replay', path],
+                                   capture_output=True, text=True, timeout=900, cwd=VERIF)
+                if p.returncode == 1 and ('violated %s:' % cl) in p.stdout:
+                    ok_pre = True
+                    v2 = [(vs[0][0], vs[0][1] + ' [only after the %d preceding simulation(s) in the same interpreter: the '
+                           'code under test keeps state between independent runs]' % n_pre)] + list(vs[1:])
+                    break
+                if n_pre >= len(allpre):
+                    break
+                n_pre *= 4
+            if not ok_pre and getattr(mod, 'NONDETERMINISM_IS_VIOLATION', False):
+                reported.append(('%s.1' % pid, 'a violation of %s seen in the batch (index %d) does not recur when the '
+                                 'same explicit case is executed in a fresh interpreter: execution is not reproducible'
+                                 % (cl, i), path))
+                continue
+            if not ok_pre:
+                harness_errors.append('violation of %s at index %d does not replay from %s (exit %d)'
+                                      % (cl, i, path, p.returncode))
+                continue
         reported.append((cl, (v2 or vs)[0][1], path))
         if len(reported) >= 5:
             break
@@ -636,6 +672,13 @@ def run_check(pid, tier, base_seed, runs=None, budget=None, jobs=None):
         print('[%s] warning: probes never hit: %s' % (pid, ', '.join(stuck)))
     for line in known_lines:
         print(line)
+    if deferred_nondet and not reported:
+        harness_errors.append(deferred_nondet)
+    if harness_errors and reported:
+        # a replayable violation outranks accompanying harness trouble
+        for h in harness_errors[:3]:
+            print('note: %s' % h)
+        harness_errors = []
     if harness_errors:
         for h in harness_errors[:5]:
             print('HARNESS-ERROR %s' % h)
